@@ -734,8 +734,10 @@ static bool expand_macro(Token **rest, Token *tok) {
 }
 
 char *search_include_paths(char *filename) {
-  if (filename[0] == '/')
+  if (filename[0] == '/') {
+    include_next_idx = 0;
     return filename;
+  }
 
   // The cache remembers in which include path a file was found
   // (as index + 1), so that #include_next knows where to go on.
@@ -758,11 +760,16 @@ char *search_include_paths(char *filename) {
   return NULL;
 }
 
-static char *search_include_next(char *filename) {
-  for (; include_next_idx < include_paths.len; include_next_idx++) {
-    char *path = format("%s/%s", include_paths.data[include_next_idx], filename);
-    if (file_exists(path))
-      return path;
+// Search a file from the include paths that come after the one in
+// which the including file was found (all of them if it was not
+// found through the include paths).
+static char *search_include_next(char *filename, int from) {
+  for (int i = from; i < include_paths.len; i++) {
+    char *path = format("%s/%s", include_paths.data[i], filename);
+    if (!file_exists(path))
+      continue;
+    include_next_idx = i + 1;
+    return path;
   }
   return NULL;
 }
@@ -854,7 +861,7 @@ static char *detect_include_guard(Token *tok) {
   return NULL;
 }
 
-static Token *include_file(Token *tok, char *path, Token *filename_tok) {
+static Token *include_file(Token *tok, char *path, Token *filename_tok, int include_idx) {
   // Check for "#pragma once"
   if (hashmap_get(&pragma_once, path))
     return tok;
@@ -870,6 +877,8 @@ static Token *include_file(Token *tok, char *path, Token *filename_tok) {
   Token *tok2 = tokenize_file(path);
   if (!tok2)
     error_tok(filename_tok, "%s: cannot open file: %s", path, strerror(errno));
+
+  tok2->file->include_idx = include_idx;
 
   guard_name = detect_include_guard(tok2);
   if (guard_name)
@@ -934,21 +943,23 @@ static Token *preprocess2(Token *tok) {
       if (filename[0] != '/' && is_dquote) {
         char *path = format("%s/%s", dirname(strdup(start->file->name)), filename);
         if (file_exists(path)) {
-          tok = include_file(tok, path, start->next->next);
+          tok = include_file(tok, path, start->next->next, 0);
           continue;
         }
       }
 
       char *path = search_include_paths(filename);
-      tok = include_file(tok, path ? path : filename, start->next->next);
+      tok = include_file(tok, path ? path : filename, start->next->next,
+                         path ? include_next_idx : 0);
       continue;
     }
 
     if (equal(tok, "include_next")) {
       bool ignore;
       char *filename = read_include_filename(&tok, tok->next, &ignore);
-      char *path = search_include_next(filename);
-      tok = include_file(tok, path ? path : filename, start->next->next);
+      char *path = search_include_next(filename, start->file->include_idx);
+      tok = include_file(tok, path ? path : filename, start->next->next,
+                         path ? include_next_idx : 0);
       continue;
     }
 
